@@ -273,17 +273,17 @@ class KroneckerProductAddedDiagLinearOperator(AddedDiagLinearOperator):
                 # here we need to scale the eigenvectors by the constants as
                 # A = D^{1/2} Q (\kron a_i^{-1} \Lambda_i + I) Q^\top D^{1/2}
                 # so that we compute
-                # L^{-1/2} = D^{1/2} Q (\kron a_i^{-1} \Lambda_i + I)^{1/2}
-                #       = (\kron a_i^{1/2} Q_i)(\kron a_i^{-1} \Lambda_i + I)^{-1/2}
+                # A^{-1} = D^{-1/2} Q (\kron a_i^{-1} \Lambda_i + I)^{-1} Q^\top D^{-1/2}, so that the inverse root is
+                # D^{-1/2} Q (\kron a_i^{-1} \Lambda_i + I)^{-1/2} = (\kron a_i^{-1/2} Q_i)(\kron a_i^{-1} \Lambda_i + I)^{-1/2}
                 scaled_evecs_list = []
                 for evec_, dlt_ in zip(evecs.linear_ops, dlt.linear_ops):
-                    scaled_evecs_list.append(evec_ * dlt_.diag_values.sqrt().unsqueeze(-1))
+                    scaled_evecs_list.append(evec_ * dlt_.diag_values.rsqrt().unsqueeze(-1))
                 scaled_evecs = KroneckerProductLinearOperator(*scaled_evecs_list)
                 return MatmulLinearOperator(scaled_evecs, evals_p_i_inv_root)
 
             # again, we compute the root decomposition by pulling across the diagonals
-            dlt_sqrt, evals_p_i, evecs = _symmetrize_kpadlt_constructor(lt, dlt)
-            dlt_inv_root = dlt_sqrt.inverse()
+            # (_symmetrize_kpadlt_constructor already returns D^{-1/2})
+            dlt_inv_root, evals_p_i, evecs = _symmetrize_kpadlt_constructor(lt, dlt)
             evals_p_i_root = DiagLinearOperator(evals_p_i._diagonal().reciprocal().sqrt())
             return MatmulLinearOperator(dlt_inv_root, MatmulLinearOperator(evecs, evals_p_i_root))
 
